@@ -382,7 +382,7 @@ end DrvPaint
 /-!
 C09, session 4 (strengthening after seeded change C09-w6-09): `format_blame_metadata` and the blame row
 (`DeltaModel/BlameMeta.lean`).
-  blamemeta.format <hyperlinks 0|1> <stdout-is-terminal 0|1> <cw: cp:w;cp:w… | ->
+  blamemeta.format <hyperlinks 0|1> <stdout-is-terminal 0|1> <cw: cp:w;cp:w… | -> <commit URL template x<…> | ->
                    <field>×3 (time, author, commit), field = x<plain> <k> {P x<text> | L x<url> x<text>}*
                    <n> {x<prefix> <label|-> <l|c|r|-> <width|-> <precision|-> x<suffix>}*
      -> ok x<metadata> | PANIC | ERR x<why>
@@ -434,16 +434,17 @@ def answer : Except String (List Char) → String
 
 def step (line : String) : String :=
   match fields line with
-  | "blamemeta.format" :: hl :: tm :: cw :: rest =>
+  | "blamemeta.format" :: hl :: tm :: cw :: url :: rest =>
     opt do
       let env : Env := { hyperlinks := ← flag hl, stdoutIsTerminal := ← flag tm }
       let cw ← parseCw cw
+      let url ← if url = "-" then some none else (charsOfField url).map some
       let (time, rest) ← takeField rest
       let (author, rest) ← takeField rest
       let (commit, rest) ← takeField rest
       let (items, rest) ← DrvPaint.takeCounted takeItem rest
       if rest ≠ [] then none
-      else pure (answer (formatMeta env cw items ⟨time, author, commit⟩))
+      else pure (answer (formatMeta env cw items { time := time, author := author, commit := commit, relink := commitRelink url }))
   | ["blamemeta.row", md, ms, ss, pre, num, suf, rep, mw, code] =>
     opt do
       let r : RowIn := { metaStyle := ← parseAnsiField ms, sepStyle := ← parseAnsiField ss, nrPrefix := ← charsOfField pre,
